@@ -755,6 +755,9 @@ class Path:
             raise SymRaise(mk_exc('KeyError'))
         if isinstance(v, SymMap):   # containers
             return containers.map_getitem(self, v, k)
+        if isinstance(v, containers.SymKeySeq):   # absnodes
+            from . import absnodes
+            return absnodes.kseq_getitem(self, v, k)
         if isinstance(v, SObj):
             return self.call_method(v, '__getitem__', [k], {})
         if isinstance(v, (ExtV, ClassV)):
@@ -803,7 +806,11 @@ class Path:
         return self._comp(node, fr, lambda f: self.ev(node.elt, f))
 
     def ev_GeneratorExp(self, node, fr):
-        return self._comp(node, fr, lambda f: self.ev(node.elt, f))
+        from . import absnodes   # absnodes
+        try:
+            return self._comp(node, fr, lambda f: self.ev(node.elt, f))
+        except absnodes.CompOverSymSet as e:
+            return e.image
 
     def ev_SetComp(self, node, fr):
         return set(self.hashable(x) for x in self._comp(node, fr, lambda f: self.ev(node.elt, f)))
@@ -822,7 +829,11 @@ class Path:
                 out.append(elt(inner))
                 return
             g = node.generators[i]
-            for item in self.iterate(self.ev(g.iter, inner)):
+            it_ = self.ev(g.iter, inner)
+            if isinstance(it_, SymSet):   # absnodes: `f(x) for x in <symbolic set>` (for any / all)
+                from . import absnodes
+                raise absnodes.CompOverSymSet(absnodes.comp_over_symset(self, node, fr, it_))
+            for item in self.iterate(it_):
                 self.assign(g.target, item, inner)
                 ok = True
                 for cnd in g.ifs:
@@ -875,6 +886,9 @@ class Path:
             raise Unsupported('truthiness of symbolic float')
         if isinstance(v, seqs.KINDS):
             return seqs.truthy(self, v)
+        if isinstance(v, containers.SYM):   # absnodes
+            from . import absnodes
+            return absnodes.truthy(self, v)
         if type(v).__name__ == 'SymStr':
             from . import strings
             return strings.truthy(self, v)
@@ -1106,6 +1120,8 @@ class Path:
         if op is ast.BitAnd:
             return self.bitand(a_, b_)
         if op is ast.BitOr:
+            if is_boollike(a) and is_boollike(b):   # absnodes: bool | bool is the bool `or` (eager)
+                return simp(z3.Or(as_z3bool(a), as_z3bool(b)))
             return self.bitor(a_, b_)
         if op is ast.BitXor:
             raise Unsupported('symbolic xor')
@@ -1461,6 +1477,9 @@ class Path:
             raise InterpError('unforced lazy value')
         if isinstance(v, seqs.KINDS):
             return seqs.getattr_hook(self, v, attr)
+        if isinstance(v, SymKey):   # absnodes: abstract attribute of an opaque key
+            from . import absnodes
+            return absnodes.key_getattr(self, v, attr)
         if isinstance(v, SObj):
             if attr in v.fields:
                 x = v.fields[attr]
@@ -1876,7 +1895,11 @@ class Path:
 
     def ex_AnnAssign(self, st, fr):
         if st.value is not None:
-            self.assign(st.target, self.ev(st.value, fr), fr)
+            v = self.ev(st.value, fr)
+            if isinstance(v, (dict, set)) and not v:   # absnodes: typed empty local (option local_types)
+                from . import absnodes
+                v = absnodes.typed_empty_local(self, st, v, fr)
+            self.assign(st.target, v, fr)
 
     def ex_AugAssign(self, st, fr):
         t = st.target
@@ -2084,6 +2107,9 @@ class Path:
             self.exec_block(st.orelse, fr)
 
     def ex_While(self, st, fr):
+        from . import absnodes   # absnodes: while rule with heap havoc (invariant winv<k>)
+        if absnodes.has_while_invariant(self, st, fr):
+            return absnodes.while_rule(self, st, fr)
         if seqs.has_invariant(self, st, fr):
             return seqs.loop_rule(self, st, None, fr)
         n = 0
@@ -2168,9 +2194,14 @@ class Path:
             if isinstance(v, seqs.SymADT):
                 return seqs.match_class(self, pat, v, binds, fr)
             t = self.ev(pat.cls, fr)
-            if not self.ex.intrinsics.isinstance(self, v, t):
+            isa = self.ex.intrinsics.isinstance(self, v, t)
+            if isa is False:
                 return False
             rs = []
+            if isa is not True:   # absnodes: symbolic class of an opaque key
+                if pat.patterns or pat.kwd_attrs:
+                    raise Unsupported('class pattern with sub-patterns on an abstract key')
+                rs.append(as_z3bool(isa))
             if pat.patterns:
                 # positional sub-patterns via __match_args__
                 if isinstance(v, SObj):
